@@ -18,6 +18,8 @@ pub struct CliOut {
     pub timed_out: bool,
     /// the run was diagnosed as hung (deadlock or CPU budget exceeded) and killed: a definite misbehaviour
     pub hang: Option<String>,
+    /// ambient variables (locale, terminal, ...) this run carried besides the ones the case asked for
+    pub ambient: Vec<(String, String)>,
 }
 
 impl CliOut {
@@ -42,11 +44,12 @@ impl CliOut {
     }
     pub fn describe(&self) -> String {
         format!(
-            "code={:?} signal={:?} timed_out={}{} stdout={:?} stderr={:?}",
+            "code={:?} signal={:?} timed_out={}{}{} stdout={:?} stderr={:?}",
             self.code,
             self.signal,
             self.timed_out,
             self.hang.as_ref().map(|h| format!(" HANG[{h}]")).unwrap_or_default(),
+            if self.ambient.is_empty() { String::new() } else { format!(" ambient_env={:?}", self.ambient.iter().map(|(k, v)| (k.as_str(), crate::engine::truncate(v, 40))).collect::<Vec<_>>()) },
             crate::engine::truncate(&self.stdout_str(), 300),
             crate::engine::truncate(&self.stderr_str(), 300)
         )
@@ -202,6 +205,21 @@ pub fn run_raw(exe: &Path, args: &[OsString], env: &[(String, String)], stdin: &
     for (k, v) in env {
         cmd.env(k, v);
     }
+    // Every third run (chosen by a hash of the invocation, so that a replay repeats it) also carries 1-3
+    // ambient variables of a user's shell: no property lets an outcome depend on them.
+    let mut ambient: Vec<(String, String)> = vec![];
+    if std::env::var_os("HDV_NO_AMBIENT").is_none() {
+        let h = crate::engine::stable_hash(&(args.iter().map(|a| a.to_string_lossy().into_owned()).collect::<Vec<_>>(), env, stdin.len(), stdin.iter().take(64).collect::<Vec<_>>()));
+        if h % 3 == 0 {
+            let tape = crate::engine::Prng::new(h).bytes(64);
+            for (k, v) in ambient_env(&mut crate::gen::U::new(&tape)) {
+                if !env.iter().any(|(kk, _)| *kk == k) {
+                    cmd.env(&k, &v);
+                    ambient.push((k, v));
+                }
+            }
+        }
+    }
     let mut child = match cmd.spawn() {
         Ok(c) => c,
         Err(e) => {
@@ -212,6 +230,7 @@ pub fn run_raw(exe: &Path, args: &[OsString], env: &[(String, String)], stdin: &
                 stderr: format!("spawn failed: {e}").into_bytes(),
                 timed_out: true,
                 hang: None,
+                ambient: vec![],
             }
         }
     };
@@ -243,9 +262,10 @@ pub fn run_raw(exe: &Path, args: &[OsString], env: &[(String, String)], stdin: &
                 stderr: o.stderr,
                 timed_out,
                 hang,
+                ambient,
             }
         }
-        Err(e) => CliOut { code: None, signal: None, stdout: vec![], stderr: format!("wait failed: {e}").into_bytes(), timed_out: true, hang: None },
+        Err(e) => CliOut { code: None, signal: None, stdout: vec![], stderr: format!("wait failed: {e}").into_bytes(), timed_out: true, hang: None, ambient: vec![] },
     }
 }
 
